@@ -161,10 +161,10 @@ check("C07", "PVM",
 
 check("C08", "PVM",
       rule="the C07 sequence driver with the ledger monitor: after every call the exact (math/big) sum of all balances in X plus the amounts of X's deferred transfers must not increase; balances change only in successful new/transfer/eject, by exactly the specified amount (creator -a_t and new account +a_t with a_t = 100+10*2+81+l, sender -amount with the transfer recorded as requested, caller +ejected balance and the account removed); success requires the caller to stay at or above its own threshold, CASH requires that it would not; amounts/lengths drawn around the balance, 2^32 and 2^64. "
-           "Plus Psi_A runs crediting 0..4 incoming transfers to a service whose code traps or halts. distinct_nontrivial = distinct contexts + credit cases",
+           "Plus Psi_A runs crediting 0..4 incoming transfers to a service whose code traps or halts, and whole accumulations (the C10 program generator: 1..25 host calls, ending in halt / trap / bad jump / panicking call, and a second run cut off by out-of-gas at a random point) after which balances plus the transfers handed back must not exceed the total before. distinct_nontrivial = distinct contexts + credit cases + whole accumulations",
       technique="conservation monitor (big-integer token ledger) at the omega-table boundary + Psi_A result check",
       level_text="A big-integer ledger is re-computed after every host call of generated sequences; held = conservation and exactness on what was explored.",
-      note=HC_NOTE, shards=(8, 16), floors={"any": {"ledger_new_ok": 500, "ledger_new_cash": 300, "ledger_transfer_ok": 500, "ledger_transfer_cash": 500, "ledger_eject_ok": 1, "credit_cases": 1000}})
+      note=HC_NOTE, shards=(8, 16), floors={"any": {"ledger_new_ok": 500, "ledger_new_cash": 300, "ledger_transfer_ok": 500, "ledger_transfer_cash": 500, "ledger_eject_ok": 1, "credit_cases": 1000, "whole_accumulations_halt": 300, "whole_accumulations_exceptional": 500, "whole_accumulations_out_of_gas": 1000, "whole_accumulations_returning_transfers": 300}})
 
 check("C09", "PVM",
       rule="the C07 sequence driver with the footprint monitor: after every call, for every account in X, recorded items/octets must equal 2*|lookups|+|storage| and sum(81+z)+sum(34+|k|+|v|) recomputed from the dictionaries and the planted raw-pool entries still in the pool; an accepted write/solicit must leave threshold <= balance; info must report the big-integer threshold. "
@@ -318,18 +318,19 @@ check("C28", "internal/telemetry",
       level_text="Stress runs of the real client under injected connection faults; every captured stream is replayed through a receiver model and matched with the IDs the emitters received. Held = no misalignment, no blocked emitter and no race report on what was explored.",
       note="In-package harness (newTCPClient, dialer). The bounded model checking mentioned in the property's quantifier is outside this technique family and is not attempted. 'Never block' is judged as: every Emit issued while the connection's Write is parked returns (watchdog 30 s, more than 10^6 times the cost of an Emit). No sleeps are injected into the client's own code (no gofail rewrite); interleavings come from GOMAXPROCS, buffer sizes, Gosched/sleep in the emitters and the fault script.",
       shards=(8, 16), race=True, timeout=(900, 7200),
-      floors={"any": {"runs": 300, "reconnects": 300, "drop_records": 300, "events_delivered": 20000, "followups_delivered": 1000, "emits_returned_while_write_stalled": 1000, "close_racing_with_emitters": 50, "dial_failures": 30, "clean_ends_with_counter_equal_to_next_seq": 50}},
+      floors={"any": {"runs": 300, "reconnects": 300, "drop_records": 300, "events_delivered": 20000, "followups_delivered": 1000, "emits_returned_while_write_stalled": 1000, "close_racing_with_emitters": 50, "dial_failures": 30, "clean_ends_with_counter_equal_to_next_seq": 50, "followups_emitted_while_the_connection_was_replaced": 40}},
       assumptions=[STANDIN_VRF])
 
 check("C32", "internal/zzverif/c32",
       rule="digest stratum: random work items (0..16 import specs, 0..16 extrinsic specs with lengths from {0,1,255,256,65535,65536,65537,2^20} and random < 2^20, export counts from {0,1,2,63,64,255,256,3072,65535} and random <= 3072, payloads of 0..500 bytes) x refinement outcomes (ok with output, each error kind) x gas: work_package.C must carry service, code hash, H(payload), accumulate gas and the result, "
-           "and the refine load must be (gas, |imports|, |extrinsics|, sum of extrinsic lengths, export count); spec stratum: work_package.A on bundles of 1..10000 bytes and 0..20 export segments (63..66 in every 40th thorough case; a quarter of the segments all-zero): hash, bundle length, export count as given, exports root == M(exports) from the independent Merkle model, same result twice. "
+           "and the refine load must be (gas, |imports|, |extrinsics|, sum of extrinsic lengths, export count); spec stratum: work_package.A on bundles of 1..10000 bytes and 0..20 export segments (63..66 in every 40th thorough case; a quarter of the segments all-zero): hash, bundle length, export count as given, exports root == M(exports) from the independent Merkle model, same result twice; "
+           "report stratum: work_package.WorkReportCompute on packages of 1..4 items with a scripted executor (refinement outcomes ok / panic / out-of-gas, outputs of 0..W_R+1 bytes chosen so that the running total crosses W_R inside the package, export lists one too long or too short in a fifth of the items) compared with a model of GP 14.11 (oversize / bad exports / error / ok, only successful outputs count against later items, failed items export zero segments), then the digests, export count and exports root of the report. "
            "distinct_nontrivial = distinct (imports, extrinsics, size sum, export count) tuples where the counts differ from each other + distinct specs",
       technique="reference-model monitor (direct model of GP 14.8 / 14.16, exports root from the independent well-balanced-tree model) over generated work items and bundles",
       level_text="Every field of the digest and of the package specification is compared with a direct model on generated inputs; held = no divergence on what was explored.",
       note="The erasure root is produced by the repository's own cgo wrapper and lib.rs over the stand-in Reed-Solomon crate (standin/rs-simd); it is not compared with anything (only: no error, no panic, deterministic).",
       shards=(8, 16), needs_rs=True, env={"JAM_FUZZ": "1"},
-      floors={"any": {"digests": 20000, "digests_with_extrinsic_size_over_16_bits": 5000, "specs": 150, "specs_without_exports": 20}},
+      floors={"any": {"digests": 20000, "digests_with_extrinsic_size_over_16_bits": 5000, "specs": 150, "specs_without_exports": 20, "reports": 250, "report_items_ok": 150, "report_items_oversize": 30, "report_items_bad_exports": 30}},
       assumptions=[STANDIN_VRF, "third-party crate reed-solomon-simd replaced by a stand-in MDS code (standin/rs-simd); only the repository's own shard layout and bookkeeping run"])
 
 check("C30", "internal/zzverif/c30",
